@@ -44,7 +44,7 @@ ASSUMPTIONS = [
 TIMEOUT = {"quick": 500, "thorough": 2800}
 REQUIRED = {"scenarios": 16, "schedule_runs": 60, "rounds_decoded": 300, "explicit_swaps_checked": 150, "exchanges_accepted": 60,
             "exchanges_rejected": 30, "advance_calls_checked": 16, "shutdowns_checked": 60, "chains_compared_across_schedules": 150,
-            "cases:unsorted_ladder": 1, "cases:odd_chain_count": 2, "cases:sharp_target": 2, "cases:terraced_target": 2, "exchanges_tied": 10, "pairings:calls": 20000, "scenarios:large_ladder": 2, "cases:single_chain": 1, "returned_rows_rederived": 2000, "run_for_calls_checked": 8}
+            "cases:unsorted_ladder": 1, "cases:odd_chain_count": 2, "cases:sharp_target": 2, "cases:terraced_target": 2, "exchanges_tied": 2, "pairings:calls": 20000, "scenarios:large_ladder": 2, "cases:single_chain": 1, "returned_rows_rederived": 2000, "run_for_calls_checked": 8}
 
 
 def jobs(tier, seed):
